@@ -8,7 +8,7 @@ SEM_CFG = """SPECIFICATION Spec
 CONSTANTS
   MaxStringLen = %d
   MaxBytesLen = %d
-INVARIANTS EmitOutcome EnvForest ValsSane
+INVARIANTS EmitOutcome EnvForest ValsSane ImmStable
 """
 
 
